@@ -17,6 +17,7 @@ Clause → theorem
 | a TWA record read directly is activity-tested on the same variable | `twa_reads_test_own_activity`, `twa_reads_found_checked`, `twa_reads_pinned` |
 | sweeps / auction starters skip controlled apps | `sweeps_skip_controlled`, `sweeps_pinned` |
 | what the code guards beyond the text | `breaker_guarded_pinned`, `esm_guarded_pinned` |
+| SCOPE: every message of ANY module that can write a vault / locker / lend / borrow record (regenerated inventory) is breaker-guarded on every route or reviewed; the text's operations are among the writers; non-message writers pinned | `position_writers_breaker_guarded`, `breaker_unguarded_writers_tight`, `breaker_list_writes_positions`, `nonmsg_position_writers_pinned` |
 
 The expected lists are written out here from the property text (`breakerRefused`, `esmRefused`, `coolOffRefused`) and proved
 equal to the `Spec.*` lists the driver's monitors use. -/
@@ -119,13 +120,17 @@ theorem breaker_guarded_pinned :
        "vault.MsgDepositAndDraw", "vault.MsgCreateStableMint", "vault.MsgDepositStableMint", "vault.MsgWithdrawStableMint",
        "locker.MsgCreateLocker", "locker.MsgDepositAsset", "lend.Lend", "lend.Withdraw", "lend.Deposit", "lend.CloseLend",
        "lend.Borrow", "lend.Repay", "lend.DepositBorrow", "lend.Draw", "lend.CloseBorrow", "lend.BorrowAlternate",
-       "lend.RepayWithdraw", "liquidation.MsgLiquidateVault"] := by decide +kernel
+       "lend.RepayWithdraw", "liquidation.MsgLiquidateVault",
+       "rewards.ExternalRewardsLockers", "rewards.ExternalRewardsVault", "rewards.ExternalRewardsLend",
+       "rewards.ExternalRewardsStableMint"] := by decide +kernel
 
 theorem esm_guarded_pinned :
     (handlers.filter (guarded 2 true)).map qname =
       ["vault.MsgCreate", "vault.MsgDeposit", "vault.MsgDraw", "vault.MsgRepay", "vault.MsgClose", "vault.MsgDepositAndDraw",
        "vault.MsgCreateStableMint", "vault.MsgDepositStableMint", "vault.MsgWithdrawStableMint", "locker.MsgCreateLocker",
-       "locker.MsgDepositAsset", "esm.ExecuteESM", "liquidation.MsgLiquidateVault"] := by decide +kernel
+       "locker.MsgDepositAsset", "esm.ExecuteESM", "liquidation.MsgLiquidateVault",
+       "rewards.ExternalRewardsLockers", "rewards.ExternalRewardsVault", "rewards.ExternalRewardsLend",
+       "rewards.ExternalRewardsStableMint"] := by decide +kernel
 
 theorem cooloff_guarded_pinned : (handlers.filter (guarded 4 false)).map qname = ["vault.MsgWithdraw"] := by decide +kernel
 
@@ -250,7 +255,10 @@ theorem sweeps_pinned :
        ("liquidationsV2", "LiquidateIndividualBorrow", "skip", "atom", "pos", "none"),
        ("liquidationsV2", "LiquidateForSurplusAndDebt", "start", "and", "neg", "none"),
        ("auction", "SurplusActivator", "start", "and", "neg", "neg"),
-       ("auction", "DebtActivator", "start", "and", "neg", "neg")] := by decide +kernel
+       ("auction", "DebtActivator", "start", "and", "neg", "neg"),
+       ("rewards", "DistributeExtRewardLocker", "skip", "atom", "pos", "none"),
+       ("rewards", "DistributeExtRewardVault", "skip", "atom", "pos", "none"),
+       ("rewards", "DistributeExtRewardLend", "skip", "atom", "pos", "none")] := by decide +kernel
 
 /-! ## composition with the execution model -/
 
@@ -296,5 +304,49 @@ theorem price_rejected_on_every_route {σ : Type} :
       ∀ (sem : Sem σ) (e : Env) (s : σ), e.priceActive = false → deliver (stepsOf sem (routeOf p.1 p.2)) e s = (s, false) := by
   intro h _ hg p hp sem e s hoff
   exact C12.route_rejects sem _ 5 false e s (guarded_route hg p hp) (by decide) (by simp [GClass.ofCode, GClass.fails, hoff])
+
+/-! ## scope: every entry point that can write a position record (from the regenerated inventory `entryPoints`) -/
+
+/-- Message entry points that reach a setter / deleter of a vault, stable-mint vault, locker, lend or borrow record and are NOT
+breaker-guarded on every route — reviewed:
+* `auction.MsgPlaceDutchLendBid`, `auctionsV2.MsgPlaceMarketBid` — bids on a running auction of an ALREADY liquidated position; the
+  position record is written to settle the auction / return the remainder (starting auctions is what the sweeps' breaker test stops).
+* `lend.CalculateInterestAndRewards`, `vault.MsgVaultInterestCalc`, `locker.MsgLockerRewardCalc` — accrual only (nothing is opened,
+  enlarged or drawn).
+* `lend.FundReserveAccounts` — the signer funds the reserve; its tail `RemoveFaultyAuctions` (keeper.go:1619) un-locks borrows that
+  are stuck in faulty gen-1 lend auctions.
+* `liquidation.MsgLiquidateBorrow`, `liquidationsV2.MsgLiquidateInternalKeeper` — the breaker test sits inside the per-position
+  function (`sweeps` table: `LiquidateIndividualVault/Borrow`, action skip) and is exercised by the harness (`breaker_closed` is
+  not demanded of them by the text; `sweep_skips` is).
+* `locker.MsgWithdrawAsset`, `locker.MsgCloseLocker` — the reading of "draw from" (notes/C14.md): not guarded, recorded. -/
+def breakerUnguardedWriters : List String := [
+  "auction.MsgPlaceDutchLendBid", "auctionsV2.MsgPlaceMarketBid", "lend.CalculateInterestAndRewards", "lend.FundReserveAccounts",
+  "liquidation.MsgLiquidateBorrow", "liquidationsV2.MsgLiquidateInternalKeeper", "locker.MsgWithdrawAsset", "locker.MsgCloseLocker",
+  "locker.MsgLockerRewardCalc", "vault.MsgVaultInterestCalc"]
+
+/-- **every message of ANY module that can write a position record has the breaker guard on every route to success before its
+first write, or is on the reviewed list** — a new handler (or an existing one that starts writing positions) fails here -/
+theorem position_writers_breaker_guarded :
+    ∀ e ∈ entryPoints, e.kind = "msg" → e.posWrites = true →
+      (∃ h ∈ handlers, qname h = epName e ∧ guarded 3 true h = true) ∨ epName e ∈ breakerUnguardedWriters := by decide +kernel
+
+theorem breaker_unguarded_writers_tight :
+    ((entryPoints.filter fun e => e.kind == "msg" && e.posWrites &&
+        !(handlers.any fun h => qname h == epName e && guarded 3 true h)).map epName) = breakerUnguardedWriters := by decide +kernel
+
+/-- the expected breaker list is inside the set of position writers (the text's operations do write positions) -/
+theorem breaker_list_writes_positions :
+    ∀ q ∈ breakerRefused, ∃ e ∈ entryPoints, e.kind = "msg" ∧ epName e = q ∧ e.posWrites = true := by decide +kernel
+
+/-- position writers that are not messages: the two contract-only re-parametrisations (they accrue every vault / locker of the
+pair before changing its rates) and the block hooks; of the hooks only auctionsV2, esm and liquidationsV2 are wired
+(`C12.unwired_entry_points_pinned`), their control tests are the `sweeps` table, `Props/C14Snapshot` and the begin-block units -/
+theorem nonmsg_position_writers_pinned :
+    ((entryPoints.filter fun e => e.kind != "msg" && e.posWrites).map fun e => (e.kind, epName e, e.registered)) =
+      [("wasm", "wasm.MsgUpdatePairsVault", true), ("wasm", "wasm.MsgUpdateCollectorLookupTable", true),
+       ("blocker", "auction.BeginBlocker", false), ("blocker", "auctionsV2.BeginBlocker", true), ("blocker", "esm.BeginBlocker", true),
+       ("blocker", "liquidation.BeginBlocker", false), ("blocker", "liquidationsV2.BeginBlocker", true)] := by decide +kernel
+
+example : (entryPoints.filter fun e => e.kind == "msg" && e.posWrites).length = 34 := by decide +kernel
 
 end Comdex.C14
